@@ -1,0 +1,59 @@
+//go:build verif
+
+// Package verifhook provides named yield points for the runtime-verification
+// harness. With the `verif` build tag a harness can install an action
+// (count / yield / sleep / gate) at each named point.
+package verifhook
+
+import (
+	"sync"
+	"sync/atomic"
+)
+
+var (
+	mu      sync.RWMutex
+	actions = map[string]func(){}
+	hits    = map[string]*atomic.Int64{}
+)
+
+func counter(name string) *atomic.Int64 {
+	mu.RLock()
+	c := hits[name]
+	mu.RUnlock()
+	if c != nil {
+		return c
+	}
+	mu.Lock()
+	defer mu.Unlock()
+	c = hits[name]
+	if c == nil {
+		c = new(atomic.Int64)
+		hits[name] = c
+	}
+	return c
+}
+
+// Hit is called by the instrumented code.
+func Hit(name string) {
+	counter(name).Add(1)
+	mu.RLock()
+	f := actions[name]
+	mu.RUnlock()
+	if f != nil {
+		f()
+	}
+}
+
+// Set installs (or, with f == nil, removes) the action run at the named point.
+func Set(name string, f func()) {
+	mu.Lock()
+	defer mu.Unlock()
+	if f == nil {
+		delete(actions, name)
+	} else {
+		actions[name] = f
+	}
+}
+
+// Hits returns how many times the named point was reached.
+func Hits(name string) int64 { return counter(name).Load() }
